@@ -551,6 +551,13 @@ def check_als(case):
             got = np.asarray(Y.asarray(), dtype=float)
     except Hang:
         return [("als:hang", "als did not terminate within 60 s of CPU time")], None
+    except np.linalg.LinAlgError as e:
+        if mode == "random":
+            # from a random start two terms can collapse onto the same direction (exactly, on block-structured
+            # integer data): the normal equations of ALS are then singular.  Nothing is promised for that
+            # (the docstring only says "generally close ... if the algorithm converged").
+            return [], ("als", "singular-normal-equations", False)
+        return [("als:%s:%s" % (mode, K.exc_key(e)), "als(R=%d, %s) raised %r" % (Rk, mode, e))], None
     except Exception as e:
         return [("als:%s:%s" % (mode, K.exc_key(e)), "als(R=%d, %s) raised %r" % (Rk, mode, e))], None
     probs = []
